@@ -1,4 +1,4 @@
-"""./run selftest [Cxx ...] [--only name] — both-ways test of the checker (DESIGN.md §8).
+"""./run selftest [Cxx ...] [--only name] [--shard i/n] — both-ways test of the checker (DESIGN.md §8).
 
 Each mutant in /verif/mutants/Cxx.json is a textual replacement applied to a scratch copy of the
 current /repo (never to /repo itself). M mutants must be reported by a rule whose id starts with
@@ -20,10 +20,11 @@ def run_check(prop, repo, cache, tier='quick'):
 
 
 def main(argv):
-    only = None; props = []; keep_evidence = True
+    only = None; props = []; keep_evidence = True; shard = None
     i = 0
     while i < len(argv):
         if argv[i] == '--only': only = argv[i + 1]; i += 2
+        elif argv[i] == '--shard': shard = tuple(int(x) for x in argv[i + 1].split('/')); i += 2      # every n-th mutant, for parallel runs
         else: props.append(argv[i]); i += 1
     mdir = os.path.join(VERIF, 'mutants')
     if not props:
@@ -45,8 +46,9 @@ def main(argv):
             base = set(rules0)
             results.append(dict(prop=prop, name='(unchanged tree)', kind='B', ok=(code0 == 0), detail='exit %d, %d violations' % (code0, len(rules0))))
             print('%s baseline exit=%d violations=%d' % (prop, code0, len(rules0)), flush=True)
-            for m in spec:
+            for mi, m in enumerate(spec):
                 if only and m['name'] != only: continue
+                if shard and mi % shard[1] != shard[0]: continue
                 path = os.path.join(repo, m['file'])
                 orig = open(path).read()
                 cnt = orig.count(m['old'])
